@@ -225,7 +225,7 @@ func ecLinear(cfg Config, file string, runs, steps int) (int, error) {
 	}
 	// bulk: many entries expiring at the same moment, purged by one DeleteExpired / one cleanup pass
 	if cfg.Shard < 2 {
-		nb := 40
+		nb := 140 // well past the batch sizes (32, 64, 100) a purge may special-case
 		s := &ecSys{nk: nb}
 		intv := []int{0, 6}[cfg.Shard]
 		ls.Run(s, func(st int) (tt.Op, bool) {
@@ -297,7 +297,7 @@ func init() {
 				nk = 8
 			}
 			if variant == "bulk" {
-				nk = 40
+				nk = 140
 			}
 			return func() tt.Sys { return &ecSys{nk: nk} }, ecZero(nk)
 		},
